@@ -128,7 +128,10 @@ def run(ctx):
     ctx.guard('J-PURE', 'lazy bodies', check_pure, ctx, w)
     ctx.floor('J-PURE', 8)
     ctx.rule('J-SHARED', 'parse-time methods of (shared, cached) constructs write nothing onto the construct')
+    ctx.rule('J-ALIAS', 'containers owned by another (cached) object are copied before they are changed')
     ctx.guard('J-SHARED', 'constructs', check_shared, ctx, w)
+    ctx.guard('J-ALIAS', 'aliases', check_alias, ctx, w)
+    ctx.floor('J-ALIAS', 1)
     ctx.floor('J-SHARED', 7)
 
 
@@ -397,6 +400,78 @@ def _top_invariant(ctx, w, ci, top, keys, vals):
     ctx.ob('J-BISECT', ci.name, 'random-access insert sites found', n >= 1, got=n)
 
 
+ALIAS_MUTATORS = ('append', 'insert', 'extend', 'pop', 'remove', 'sort', 'clear', 'update', 'setdefault', 'popitem', 'add', 'discard', 'reverse')
+ALIAS_COPIERS = ('copy', 'deepcopy', 'list', 'dict', 'set', 'tuple', 'sorted', 'bytearray', 'frozenset')
+
+
+def _alias_sites(fnode):
+    """[(local, source text, mutation node)]: a local bound to a field of another object (x = obj.attr / obj[k] / call().attr,
+    not through a copying call) and then changed in place (mutator method, item store/delete) -- in the function or in a
+    closure nested in it"""
+    def root(n):
+        while isinstance(n, (ast.Attribute, ast.Subscript)):
+            n = n.value
+        return n
+    alias = {}
+    rebound = {}
+    for st in ast.walk(fnode):
+        if isinstance(st, ast.Assign) and len(st.targets) == 1 and isinstance(st.targets[0], ast.Name):
+            nm = st.targets[0].id
+            rebound[nm] = rebound.get(nm, 0) + 1
+            v = st.value
+            if isinstance(v, (ast.Attribute, ast.Subscript)) and not isinstance(v, ast.Constant):
+                r = root(v)
+                if isinstance(r, ast.Call) or (isinstance(r, ast.Name) and r.id != 'self'):
+                    alias.setdefault(nm, []).append(U(v))
+    out = []
+    for n in ast.walk(fnode):
+        tgt = None
+        if isinstance(n, ast.Call) and isinstance(n.func, ast.Attribute) and n.func.attr in ALIAS_MUTATORS and isinstance(n.func.value, ast.Name) and \
+                n.func.value.id in alias:
+            tgt = n.func.value.id
+        elif isinstance(n, (ast.Assign, ast.Delete)):
+            for t in n.targets:
+                if isinstance(t, ast.Subscript) and isinstance(t.value, ast.Name) and t.value.id in alias:
+                    tgt = t.value.id
+        if tgt:
+            out.append((tgt, alias[tgt], n))
+    return out
+
+
+def check_alias(ctx, w):
+    """A decoded table / header / list obtained from another object (typically a cached one: cie.get_decoded(), a unit's
+    header, a parent's list) is shared state: changing it in place changes what every other holder sees later, so the answer to
+    an identical query depends on what was decoded before.  Expected count on a correct tree is zero; the copying idiom
+    (copy.copy / list(...)) is what the code uses, and those sites are counted as the rule's instances."""
+    n_copy = 0
+    for f in w.model.library_funcs():
+        if f.mod.startswith('elftools/construct/') or '<locals>' in f.qual:
+            continue
+        for nm, srcs, node in _alias_sites(f.node):
+            ctx.ob('J-ALIAS', f.construct, '%s (alias of %s) changed in place' % (nm, srcs[0][:50]), False, line=node.lineno, got=U(node)[:80],
+                   msg='a container that belongs to another object is changed in place through a local alias: every other holder of '
+                       'that object (a cached CIE table shared by its FDEs, a shared header) sees the change, so identical queries answer '
+                       'differently depending on what was decoded before; copy it first')
+        # the copying idiom: x = copy.copy(obj.attr) / list(obj.attr) followed by an in-place change of x
+        for st in ast.walk(f.node):
+            if isinstance(st, ast.Assign) and len(st.targets) == 1 and isinstance(st.targets[0], ast.Name) and isinstance(st.value, ast.Call):
+                cn = st.value.func.attr if isinstance(st.value.func, ast.Attribute) else (st.value.func.id if isinstance(st.value.func, ast.Name) else None)
+                if cn in ALIAS_COPIERS and st.value.args and isinstance(st.value.args[0], (ast.Attribute, ast.Subscript)):
+                    r = st.value.args[0]
+                    while isinstance(r, (ast.Attribute, ast.Subscript)):
+                        r = r.value
+                    if isinstance(r, ast.Call) or (isinstance(r, ast.Name) and r.id != 'self'):
+                        nm = st.targets[0].id
+                        changed = any(isinstance(x, ast.Call) and isinstance(x.func, ast.Attribute) and x.func.attr in ALIAS_MUTATORS and
+                                      isinstance(x.func.value, ast.Name) and x.func.value.id == nm for x in ast.walk(f.node)) or \
+                            any(isinstance(x, ast.Subscript) and isinstance(x.ctx, ast.Store) and isinstance(x.value, ast.Name) and x.value.id == nm for x in ast.walk(f.node))
+                        if changed:
+                            n_copy += 1
+                            ctx.ob('J-ALIAS', f.construct, '%s copied from %s before it is changed' % (nm, U(st.value.args[0])[:50]), True,
+                                   sample='%s: %s = %s' % (f.construct, nm, U(st.value)[:60]))
+    ctx.analysed['copy_before_change_sites'] = n_copy
+
+
 def check_keys(ctx, w):
     """Pattern: if K in self.C: return self.C[K] ... self.C[K] = V  -- V depends on no parameter outside K."""
     n_sites = 0
@@ -607,6 +682,7 @@ def _root_attr(node):
 
 
 MUTANTS = [
+    ('cie-regorder-alias', 'dwarf/callframe.py', "            reg_order = copy.copy(cie_decoded_table.reg_order)", "            reg_order = cie_decoded_table.reg_order", 'J-ALIAS'),
     ('accessor-nopos', 'elf/sections.py', "        entry = struct_parse(\n            self.structs.Elf_Sym,\n            self.stream,\n            stream_pos=entry_offset)\n        # Find the symbol name in the associated string table", "        entry = struct_parse(\n            self.structs.Elf_Sym,\n            self.stream)\n        # Find the symbol name in the associated string table", 'H-CUR'),
     ('pair-append', DI, "        self._cu_cache.insert(i, cu)", "        self._cu_cache.append(cu)", 'J-PAIR'),
     ('bisect-left', 'dwarf/compileunit.py', "        i = bisect_right(self._diemap, offset)", "        i = bisect_left(self._diemap, offset)", 'J-BISECT'),
